@@ -10,6 +10,7 @@ use crate::model::{Format, Model};
 use crate::policy::PolKind;
 use crate::source::Script;
 use crate::util::B;
+use crate::{ensure, fail};
 use proptest::collection::vec;
 use proptest::prelude::*;
 use serde_derive::{Deserialize, Serialize};
@@ -139,6 +140,138 @@ impl Prop for Histories {
     }
 }
 
+/// C05, clause "from any reader state": the reader has stopped with `InvalidStart` (blank lines, then a line that does
+/// not start with '>' - e.g. a `;` comment preamble, which the module documentation names as unsupported) and the
+/// caller, who knows the records' coordinates from an index, seeks to them. Sequential reading "from there" is the
+/// reference model of the body, shifted by the preamble.
+#[derive(Clone, Debug, Serialize, Deserialize, Hash)]
+pub struct PreCase {
+    /// blank lines in front (true = CRLF)
+    pub blanks: Vec<bool>,
+    /// preamble lines: none of them starts with '>' and the first one is not empty
+    pub junk: Vec<(B, bool)>,
+    /// well-formed FASTA that starts with '>' (or is empty)
+    pub body: B,
+    pub cap: usize,
+    /// false: the failing first read is next(), true: read_record_set()
+    pub first_set: bool,
+    /// (target record, number of reads after the seek)
+    pub seeks: Vec<(u16, u8)>,
+}
+
+pub struct Preamble;
+
+impl Prop for Preamble {
+    type Case = PreCase;
+    fn strategy(&self, _tier: Tier) -> BoxedStrategy<PreCase> {
+        let junk_line = |first: bool| {
+            let b0 = prop_oneof![4 => Just(b';'), 2 => Just(b'#'), 2 => gen::seq_byte(), 1 => Just(b'@'), 1 => Just(b' ')].prop_filter("not '>' / line end", |b| *b != b'>' && *b != b'\n' && *b != b'\r');
+            let rest = vec(prop_oneof![6 => gen::seq_byte(), 1 => Just(b'>'), 1 => Just(b' ')].prop_filter("no line end", |b| *b != b'\n' && *b != b'\r'), 0..12);
+            (b0, rest, any::<bool>(), any::<bool>()).prop_map(move |(b0, rest, crlf, empty)| {
+                if empty && !first {
+                    (B(vec![]), crlf)
+                } else {
+                    let mut l = vec![b0];
+                    l.extend(rest);
+                    (B(l), crlf)
+                }
+            })
+        };
+        let blanks = prop_oneof![2 => Just(vec![]), 6 => vec(any::<bool>(), 1..5), 1 => vec(any::<bool>(), 5..40)];
+        let junk = (junk_line(true), vec(junk_line(false), 0..3)).prop_map(|(a, mut v)| {
+            v.insert(0, a);
+            v
+        });
+        let body = prop_oneof![8 => gen::fasta_doc_with(8, 0), 1 => gen::fasta_doc_with(30, 0)];
+        let cap = prop_oneof![3 => 3usize..16, 4 => 16usize..200, 2 => 200usize..2000, 1 => Just(65536usize)];
+        boxed((blanks, junk, body, cap, any::<bool>(), vec((any::<u16>(), 0u8..6), 1..8)).prop_map(|(blanks, junk, body, cap, first_set, seeks)| PreCase { blanks, junk, body, cap, first_set, seeks }))
+    }
+
+    fn check(&self, c: &PreCase, ctx: &mut Ctx) -> CheckResult {
+        use seq_io::fasta::{Error, Position, Reader, RecordSet};
+        let mut doc = Vec::new();
+        for &crlf in &c.blanks {
+            doc.extend_from_slice(if crlf { b"\r\n" } else { b"\n" });
+        }
+        let blank_bytes = doc.len();
+        if c.junk.is_empty() || c.junk[0].0 .0.is_empty() || c.junk.iter().any(|(l, _)| l.0.first() == Some(&b'>') || l.0.contains(&b'\n')) {
+            return Ok(()); // hand-edited replay files only; the generator never produces it
+        }
+        for (l, crlf) in &c.junk {
+            doc.extend_from_slice(&l.0);
+            doc.extend_from_slice(if *crlf { b"\r\n" } else { b"\n" });
+        }
+        let pre_bytes = doc.len();
+        let pre_lines = c.blanks.len() + c.junk.len();
+        doc.extend_from_slice(&c.body.0);
+        let m = Model::build(Format::Fasta, &c.body.0);
+        if m.term != crate::model::Terminal::End || (!c.body.0.is_empty() && c.body.0[0] != b'>') {
+            return Ok(()); // not a well-formed body (hand-edited replay, byte-wise minimisation)
+        }
+        let mut rdr = Reader::with_capacity(std::io::Cursor::new(&doc[..]), c.cap.max(3));
+        // the first read fails with InvalidStart at the first preamble line
+        let first = if c.first_set {
+            let mut set = RecordSet::default();
+            rdr.read_record_set(&mut set).and_then(|r| r.err())
+        } else {
+            match rdr.next() {
+                Some(Err(e)) => Some(e),
+                Some(Ok(_)) => fail!("preamble:record-before-invalid-start", "next() returned a record although the first non-blank line is {:?}", crate::util::esc(&c.junk[0].0 .0)),
+                None => None,
+            }
+        };
+        match first {
+            Some(Error::InvalidStart { line, found }) => {
+                ensure!(line == c.blanks.len() + 1 && found == c.junk[0].0 .0[0], "preamble:invalid-start-fields", "InvalidStart {{ line: {}, found: {} }} but the first non-blank line is line {} and starts with {}", line, found, c.blanks.len() + 1, c.junk[0].0 .0[0]);
+            }
+            other => fail!("preamble:no-invalid-start", "first read of a document whose first non-blank line starts with {:?} gave {:?}", c.junk[0].0 .0[0] as char, other.map(|e| e.to_string())),
+        }
+        if m.recs.is_empty() {
+            return Ok(());
+        }
+        let mut compared = 0u64;
+        let mut inbuf_candidates = 0u64;
+        for &(t, n) in &c.seeks {
+            let k = crate::util::idx(t, m.recs.len());
+            let target = Position::new((pre_lines + m.recs[k].line) as u64, (pre_bytes + m.recs[k].byte) as u64);
+            if let Err(e) = rdr.seek(&target) {
+                fail!("preamble:seek-error", "seek to record {} ({:?}) failed: {}", k, target, e);
+            }
+            if pre_bytes + m.recs[k].byte < c.cap && blank_bytes > 0 {
+                inbuf_candidates += 1;
+            }
+            for j in 0..n as usize {
+                let want = m.recs.get(k + j);
+                match (rdr.next(), want) {
+                    (None, None) => break,
+                    (Some(Ok(r)), Some(w)) => {
+                        let got = crate::driver::fa_norm(&r);
+                        ensure!(got == w.rec, "preamble:record-after-seek", "read {} after seeking to record {}: got {:?}, sequential reading gives {:?}", j, k, got, w.rec);
+                        compared += 1;
+                    }
+                    (Some(Ok(r)), None) => fail!("preamble:extra-record", "read {} after seeking to record {}: record {:?} beyond the end", j, k, crate::driver::fa_norm(&r)),
+                    (Some(Err(e)), _) => fail!("preamble:error-after-seek", "read {} after seeking to record {}: {}", j, k, e),
+                    (None, Some(w)) => fail!("preamble:end-after-seek", "read {} after seeking to record {}: end of input, sequential reading gives {:?}", j, k, w.rec),
+                }
+                let w = want.unwrap();
+                let p = match rdr.position() {
+                    Some(p) => p.clone(),
+                    None => fail!("preamble:no-position", "position() is None after record {} was returned", k + j),
+                };
+                ensure!(p.byte() == (pre_bytes + w.byte) as u64 && p.line() == (pre_lines + w.line) as u64, "preamble:position-after-seek", "position after reading record {} is (line {}, byte {}), true coordinates (line {}, byte {})", k + j, p.line(), p.byte(), pre_lines + w.line, pre_bytes + w.byte);
+            }
+        }
+        ctx.class_n("records compared", compared);
+        if inbuf_candidates > 0 {
+            ctx.class("target within the first buffer fill, blank lines in front of the preamble");
+        }
+        if compared >= 1 {
+            ctx.nontrivial(c, c);
+        }
+        Ok(())
+    }
+}
+
 pub const RULE_C04: &str = "cases = (format, document (mostly well-formed; FASTQ also with one defect at a generated record), capacity absolute or aimed at record boundaries, permissive policy, chunk/interrupt script, history of 0..24 operations (1 case in 60: a document of several hundred kB read with a buffer of 64 KiB..128 KiB and exact-count reads of up to 249 records) over {next, records() step, read_record_set(slot 0..2), read_record_set_exact(slot, n in 1..20, rarely one of u32::MAX, 2^40, isize::MAX/40+1, isize::MAX, usize::MAX/8, usize::MAX), seek to a record, seek to a position reported earlier, into_records()}). Oracle: strict cursor model (exactly once, in order, content equal to the reference record, k >= 1 for plain sets, k = min(n, remaining) for exact sets, end only with nothing left, untouched slots unchanged, refilled slot = new batch only, error only after all preceding records). Exhaustive sub-check: every operation sequence of length <= 4 (thorough: 5) over a 9-operation alphabet (incl. read_record_set_exact(usize::MAX)) x 6 fixed small documents x 7 capacities. Non-trivial = the history uses >= 2 read kinds, delivers >= 2 records and (switches kind right after a set read, or an exact read crosses the end, or a slot is refilled with fewer records than it held). Distinct = hash(case).";
 
 pub const RULE_C05: &str = "cases as for C04 but seek-heavy (about 40 % seeks), long leading blank regions, capacities smaller and larger than the distance to the target. Oracle: after next() the reported position equals the model's (line, byte) of that record; after a set read a reported position equals the coordinates of the next unread record (or of the invalid FASTQ group); after a seek the reads follow the cursor model from the target (seeking to an invalid FASTQ record reproduces its error). Exhaustive sub-check as for C04, with positions compared. Non-trivial = >= 1 seek followed by >= 1 read that returned a record. Distinct = hash(case).";
@@ -204,6 +337,8 @@ fn exhaustive_histories(run: &mut Run, positions: bool, max_len: u32) {
     });
 }
 
+pub const RULE_PREAMBLE: &str = "Sub-check seek-after-invalid-start (clause 'from any reader state'): document = 0..40 blank lines (LF/CRLF) + 1..4 preamble lines none of which starts with '>' + a well-formed FASTA body; the first read (next() or read_record_set()) must fail with InvalidStart at the first preamble line; then 1..8 seeks to body records (coordinates = model of the body shifted by the preamble) each followed by 0..5 next() calls, records and reported positions compared with the model. Non-trivial = >= 1 record compared after such a seek.";
+
 pub fn run_c04(tier: Tier) -> i32 {
     let mut run = Run::new("C04", tier, "exploration");
     let p = Histories { seek_weight: 2, positions: false };
@@ -223,7 +358,9 @@ pub fn run_c05(tier: Tier) -> i32 {
     run.replays("large-coordinates", &l);
     run.generated("large-coordinates", &l, tier.pick(300, 6_000));
     super::large::run_beyond(&mut run, false);
-    run.finish(&format!("{} {}", RULE_C05, super::large::RULE_LARGE), &["reference model M_fa/M_fq gives the true coordinates", "seek targets are record starts (and the invalid FASTQ group) only"])
+    run.replays("seek-after-invalid-start", &Preamble);
+    run.generated("seek-after-invalid-start", &Preamble, tier.pick(60_000, 1_000_000));
+    run.finish(&format!("{} {} {}", RULE_C05, RULE_PREAMBLE, super::large::RULE_LARGE), &["reference model M_fa/M_fq gives the true coordinates", "seek targets are record starts (and the invalid FASTQ group) only"])
 }
 
 pub fn replay_c04(run: &mut Run, file: &std::path::Path) -> Option<bool> {
@@ -234,5 +371,6 @@ pub fn replay_c05(run: &mut Run, file: &std::path::Path) -> Option<bool> {
     run.replay_file("seek-position-model", &Histories { seek_weight: 24, positions: true }, file, true)
         .or_else(|| run.replay_file("exhaustive-short-histories-positions", &Histories { seek_weight: 24, positions: true }, file, true))
         .or_else(|| run.replay_file("large-coordinates", &super::large::LargeCoords { errors: false }, file, true))
+        .or_else(|| run.replay_file("seek-after-invalid-start", &Preamble, file, true))
         .or_else(|| run.replay_file("beyond-4-gib", &super::large::Beyond4G { errors: false, variants: &[0] }, file, true))
 }
